@@ -107,8 +107,10 @@ theorem miser_history_counterexample :
     of an enclosing Miser integration whose integrand makes this call — the result is that of a run started from 0 -/
 theorem miser_entry_reset (u01 : U01 G) (f : List Rat → Rat) (pw23 : Rat → Rat) (region : List Rat) (ncall : Int) (s : Nat) (g : G) :
     (miserTopS u01 f pw23 region ncall s g).1 = miserTop u01 f pw23 region ncall 0 g := by
-  unfold miserTopS miserTop
-  cases miser u01 f pw23 ncall.toNat.succ region ncall 0 g <;> rfl
+  unfold miserTopS miserTop miserTopCore
+  split_ifs
+  · rfl
+  · cases miser u01 f pw23 ncall.toNat.succ region ncall 0 g <;> rfl
 
 theorem miser_nested_independent (u01 : U01 G) (f : List Rat → Rat) (pw23 : Rat → Rat) (region : List Rat) (ncall : Int) (s₁ s₂ : Nat) (g : G) :
     (miserTopS u01 f pw23 region ncall s₁ g).1 = (miserTopS u01 f pw23 region ncall s₂ g).1 := by
@@ -119,12 +121,26 @@ theorem miser_nested_independent (u01 : U01 G) (f : List Rat → Rat) (pw23 : Ra
 theorem miser_exit_reset_sequential (u01 : U01 G) (f f' : List Rat → Rat) (pw23 : Rat → Rat) (region region' : List Rat) (ncall ncall' : Int)
     (s : Nat) (g g' : G) :
     (miserTopExitReset u01 f pw23 region ncall (miserTopExitReset u01 f' pw23 region' ncall' s g').2 g).1
-      = miserTop u01 f pw23 region ncall s g := rfl
+      = miserTopCore u01 f pw23 region ncall s g := rfl
 
 /-- … but a call nested in a running Miser integration starts from the enclosing run's current static: it is the
     unrepaired behaviour (`miserTopNoReset`), whose fallback axis depends on that value (`miser_history_counterexample`) -/
 theorem miser_exit_reset_nested (u01 : U01 G) (f : List Rat → Rat) (pw23 : Rat → Rat) (region : List Rat) (ncall : Int) (s : Nat) (g : G) :
     (miserTopExitReset u01 f pw23 region ncall s g).1 = miserTopNoReset u01 f pw23 region ncall s g := rfl
+
+/-- fix 9d8dcaf: a region of zero volume gives exactly 0, evaluates the integrand nowhere and consumes no randomness,
+    for every integrand, budget, generator and static -/
+theorem miserTop_zero_volume (u01 : U01 G) (f : List Rat → Rat) (pw23 : Rat → Rat) (region : List Rat) (ncall : Int) (s : Nat) (g : G)
+    (h : mcVolume region = 0) : miserTop u01 f pw23 region ncall s g = some (0, [], false) := by
+  unfold miserTop; rw [if_pos h]
+
+/-- a zero-width axis makes the volume zero (example: `[0,1] × [2,2]`) -/
+example : mcVolume [0, 2, 1, 2] = 0 := by decide +kernel
+
+/-- the guard is value-neutral for constants wherever the old code returned: `0 = volume · c` -/
+theorem miserTop_zero_volume_neutral (u01 : U01 G) (c : Rat) (pw23 : Rat → Rat) (region : List Rat) (ncall : Int) (s : Nat) (g : G)
+    (h : mcVolume region = 0) : ∃ pts kn, miserTop u01 (fun _ => c) pw23 region ncall s g = some (mcVolume region * c, pts, kn) :=
+  ⟨[], false, by rw [miserTop_zero_volume u01 _ pw23 region ncall s g h, h, zero_mul]⟩
 
 /-- with `dith = 0` the bisection point is the midpoint, hence inside the parent interval -/
 theorem miser_rmid_inside (region : List Rat) (dim j : Nat) (h : at_ region j ≤ at_ region (dim + j)) :
@@ -176,6 +192,10 @@ theorem miser_only_inside (u01 : U01 G) (hu : Unit01 u01) (f : List Rat → Rat)
     (hw : WellFormed region) (ncall : Int) (iranStatic : Nat) (g : G) (v : Rat) (pts : List (List Rat)) (kn : Bool)
     (h : miserTop u01 f pw23 region ncall iranStatic g = some (v, pts, kn)) : ∀ p ∈ pts, Inside region p := by
   unfold miserTop at h
+  split_ifs at h with hv0
+  · simp only [Option.some.injEq, Prod.mk.injEq] at h
+    intro p hp; rw [← h.2.1] at hp; simp at hp
+  unfold miserTopCore at h
   split at h
   · rename_i o ho
     simp only [Option.some.injEq, Prod.mk.injEq] at h
@@ -284,6 +304,9 @@ theorem miserTop_constant_exact (u01 : U01 G) (c : Rat) (pw23 : Rat → Rat) (re
     (hs : StrictWF region) (ncall : Int) (hn : 1 ≤ ncall) (iranStatic : Nat) (g : G) :
     ∃ pts kn, miserTop u01 (fun _ => c) pw23 region ncall iranStatic g = some (mcVolume region * c, pts, kn) := by
   unfold miserTop
+  split_ifs with hv0
+  · exact ⟨[], false, by rw [hv0, zero_mul]⟩
+  unfold miserTopCore
   have ht := miser_total_const u01 c pw23 ncall.toNat.succ region ncall 0 g hd hs hn (by push_cast; omega)
   split
   · rename_i o ho
@@ -584,5 +607,39 @@ theorem vegas_sweep_stale_witness : sweepLen 3 100 [1, 1] = 9 ∧ sweepLen 3 100
 /-- a finished sweep returns the odometer to `(1,…,1)` — the only reason a hoisted one-time reset looks equivalent -/
 theorem vegas_sweep_returns_ones (ng : Nat) (kg : List Nat) (h : (odoRev ng kg).2 = true) :
     (odoRev ng kg).1 = List.replicate kg.length 1 := odoRev_done_ones ng kg h
+
+/-! ## Fixes 66169b8 (bin index clamped to the bins in use) and 9f1900c (integrand gets exactly ndim coordinates) -/
+
+/-- UNCONDITIONAL after fix 66169b8: whatever `xn` is (also `u = 0`, `kg = ng`, where `int(xn) = nd + 1`), the bin index
+    lies in `1..nd` — the grid cells read by `vegasRc` are live (`vegasRc_reads_live`) -/
+theorem vegas_ia_range_unconditional (xn : Rat) (nd : Nat) (hnd : 1 ≤ nd) : 1 ≤ vegasIaNd xn nd ∧ vegasIaNd xn nd ≤ nd := by
+  unfold vegasIaNd
+  have h1 : (1 : Int) ≤ max (min (truncInt xn) (nd : Int)) 1 := le_max_right _ _
+  have h2 : max (min (truncInt xn) (nd : Int)) 1 ≤ (nd : Int) := max_le (min_le_right _ _) (by exact_mod_cast hnd)
+  omega
+
+/-- the post-fix value at the pre-fix witness (`kg = ng = nd = 25`, `u = 0`): 25 instead of 26 -/
+theorem vegas_ia_clamped_witness : vegasIaNd (vegasXn 25 0 ((25 : Nat) / (25 : Int))) 25 = 25 := by decide +kernel
+
+/-- below the clamp the two formulas agree: the fix changes nothing unless `int(xn) > nd` -/
+theorem vegasIaNd_eq_vegasIa (xn : Rat) (nd : Nat) (hnd : nd ≤ 50) (h : truncInt xn ≤ nd) : vegasIaNd xn nd = vegasIa xn := by
+  unfold vegasIaNd vegasIa
+  have : min (truncInt xn) (nd : Int) = truncInt xn := min_eq_left h
+  have h50 : min (truncInt xn) 50 = truncInt xn := min_eq_left (by have : (nd : Int) ≤ 50 := by exact_mod_cast hnd
+                                                                   omega)
+  rw [this, h50]
+
+/-- fix 9f1900c: the integrand's argument has exactly `ndim` entries (the work vector has `MXDIM = 10 ≥ ndim`) and they are
+    the first `ndim` coordinates of the sample -/
+theorem vegasPoint_size (x : List Rat) (ndim : Nat) (h : ndim ≤ x.length) : (vegasPoint x ndim).length = ndim := by
+  unfold vegasPoint; simp [List.length_take, h]
+
+theorem vegasPoint_coords (x : List Rat) (ndim j : Nat) (hj : j < ndim) : (vegasPoint x ndim)[j]? = x[j]? := by
+  unfold vegasPoint; simp [List.getElem?_take, hj]
+
+/-- the tail of the work vector (coordinates left by earlier integrations) cannot reach the integrand -/
+theorem vegasPoint_ignores_tail (x t₁ t₂ : List Rat) (ndim : Nat) (h : x.length = ndim) :
+    vegasPoint (x ++ t₁) ndim = vegasPoint (x ++ t₂) ndim := by
+  unfold vegasPoint; simp [List.take_append_of_le_length, h]
 
 end Lp.C14
